@@ -29,11 +29,30 @@ def run(prop, tier):
     log(f"[C05] fragment of {n} types, {len(pairs)} ordered pairs, TLC {gr['wall']:.0f}s")
     src = semlib.program(frag, env)
     base = {"id": 1, "kind": "sem", "files": [["entry.ts", src]], "names": [f"X{i}" for i in range(1, n + 1)]}
-    ops = []
-    for p in pairs:
-        ops.append({"op": "sub", "a": f"X{p['ia']}", "b": f"X{p['ib']}"})
-        ops.append({"op": "same", "a": f"X{p['ia']}", "b": f"X{p['ib']}"})
-    res = semlib.semtool_ops(base, ops)
+    # the engine memoizes across questions: every pair is asked in two different histories (one engine context per chunk of
+    # 4000 questions: the generator's order, and a seeded shuffle of it); both answers are judged
+    pairs = sorted(pairs, key=lambda p: (p["ia"], p["ib"]))
+    CH = 4000
+
+    def ops_of(order):
+        out = []
+        for k in order:
+            p = pairs[k]
+            out.append({"op": "sub", "a": f"X{p['ia']}", "b": f"X{p['ib']}"})
+            out.append({"op": "same", "a": f"X{p['ia']}", "b": f"X{p['ib']}"})
+        return out
+    order1 = list(range(len(pairs)))
+    order2 = list(order1)
+    random.Random(vlib.seed() + 1).shuffle(order2)
+    ops1, ops2 = ops_of(order1), ops_of(order2)
+    res = semlib.semtool_ops(base, ops1, chunk=CH)
+    res2s = semlib.semtool_ops(base, ops2, chunk=CH)
+    pos2 = {k: i for i, k in enumerate(order2)}
+
+    def history(hist, k):
+        ops_, i = (ops1, k) if hist == 1 else (ops2, pos2[k])
+        lo = (2 * i // CH) * CH
+        return [f"{o['op']} {vlib.ts(frag[int(o['a'][1:]) - 1])} <: {vlib.ts(frag[int(o['b'][1:]) - 1])}" for o in ops_[lo:2 * i + 2]]
     # source level: the branch taken by `A extends B ? 1 : 2` for a seeded sample
     rng = random.Random(vlib.seed())
     sample = rng.sample(range(len(pairs)), min(len(pairs), 600 if tier == "quick" else 4000))
@@ -59,7 +78,11 @@ def run(prop, tier):
     recs = []
     for k, p in enumerate(pairs):
         recs.append({"ia": p["ia"], "ib": p["ib"], "sub": tf(res[2 * k]), "same": tf(res[2 * k + 1]), "src": srcres.get(k, "none"),
-                     "fatal": bool((res[2 * k] or {}).get("fatal") or (res[2 * k + 1] or {}).get("fatal")), "_mc": p["sub"]})
+                     "fatal": bool((res[2 * k] or {}).get("fatal") or (res[2 * k + 1] or {}).get("fatal")), "_mc": p["sub"], "_h": 1, "_k": k})
+    for k, p in enumerate(pairs):
+        i = pos2[k]
+        recs.append({"ia": p["ia"], "ib": p["ib"], "sub": tf(res2s[2 * i]), "same": tf(res2s[2 * i + 1]), "src": "none",
+                     "fatal": bool((res2s[2 * i] or {}).get("fatal") or (res2s[2 * i + 1] or {}).get("fatal")), "_mc": p["sub"], "_h": 2, "_k": k})
     open_k = vlib.open_findings("C05")
     dev_to_k = {k["deviation"]: k for k in open_k if k.get("deviation")}
     typesf = os.path.join(vlib.WORK, tag, "types.ndjson")
@@ -82,13 +105,14 @@ def run(prop, tier):
         seen.add(key)
         a, b = frag[r["ia"] - 1], frag[r["ib"] - 1]
         payload = {"property": prop, "complaint": j["kind"], "A": vlib.ts(a), "B": vlib.ts(b), "declarations": decls,
-                   "inclusion_of_value_sets": j["exp"], "is_subtype": r["sub"], "is_same_type": r["same"], "conditional_type_branch": r["src"]}
+                   "inclusion_of_value_sets": j["exp"], "is_subtype": r["sub"], "is_same_type": r["same"], "conditional_type_branch": r["src"],
+                   "history_in_the_same_engine_context": history(r["_h"], r["_k"])}
         path = vlib.write_replay(prop, f"{tier}-{len(violations)}", payload)
         violations.append((path, f"{j['kind']}: A = {vlib.ts(a)}  B = {vlib.ts(b)}  expected {j['exp']} sub={r['sub']} same={r['same']} src={r['src']}"))
     cov = {"states": gr["distinct"] + tstates, "transitions": gr["states"] + consumed, "traces_validated_against_impl": consumed,
            "samples": [{"A": vlib.ts(frag[p["ia"] - 1]), "B": vlib.ts(frag[p["ib"] - 1]), "inclusion": p["sub"]} for p in pairs[:: max(1, len(pairs) // 4)][:4]],
            "fragment_types": n, "ordered_pairs": len(pairs), "pairs_where_inclusion_holds": sum(1 for p in pairs if p["sub"]),
-           "source_level_sample": len(sample), "pairs_declined_by_engine": sum(1 for r in recs if r["sub"].startswith("E")), "known_findings_hit": sorted({k for k, _ in known_hits}),
+           "histories_per_pair": 2, "source_level_sample": len(sample), "pairs_declined_by_engine": sum(1 for r in recs if r["sub"].startswith("E")), "known_findings_hit": sorted({k for k, _ in known_hits}),
            "binding_selftest": "rejected: flipped is_subtype answer", "exhaustive": True,
            "rule": f"SemGen.tla level {level}: every ordered pair of fragment types (leaves, depth-1 constructors over a small leaf set, "
                    "recursive / mutually recursive / uninhabited named types" + ("; plus nested compounds" if level >= 2 else "") + ")"}
